@@ -407,6 +407,15 @@ def e2e_cases(draw, profile):
             dict(profile, ntransfers=(1, 1)), cfg, adj)))
         if fr:
             case['fresh'] = fr[0]
+    if profile.get('serial_kbi') and case['exec'] == 'serial':
+        # serial executor: every request, read and write runs on the user's
+        # thread, so a Ctrl-C can arrive inside one of them - in half of the
+        # serial cases the first eligible planted fault becomes an interrupt
+        el = [f for f in case['faults']
+              if not f['site'].startswith('cb.')
+              and f['site'] != 's3.abort_multipart_upload']
+        if el and draw(st.booleans()):
+            el[0]['exc'] = 'kbi'
     return case
 
 
